@@ -17,7 +17,9 @@ def run(rep, kf, tier, seed):
     import contracts.model_plumbing as cmp_
     engine_b.discharge(rep, kf, cmp_.all_contracts(), "C08", tier, seed)
     import contracts.fixpoints as cfp
-    engine_b.discharge(rep, kf, [crm.propagate_contract(), cbr.resolve_contract()] + cfp.all_contracts(), "C08", tier, seed)
+    import contracts.collection_ind as cci
+    engine_b.discharge(rep, kf, [crm.propagate_contract(), cbr.resolve_contract(), cci.from_data_inductive_contract()]
+                       + cfp.all_contracts(), "C08", tier, seed)
     run_bounded(rep, kf, "C08", ["removal_closure", "schema_order", "body_media"], tier)
     rep.trusted.extend(["pyvc Engine B; LazyMap model of tables of unknown content"]
                        + ["assumed library contract: " + t for t in libmodels.TRUSTED])
